@@ -176,6 +176,16 @@ pub fn run(ctx: &mut Ctx, prop: &str) {
             Ok(s) => ctx.oracle_fail("to_string() is not build() with each placeholder replaced by the value's literal", serde_json::json!({"class": class, "backend": b.name(), "recipe": recipe, "build": r.sql, "substituted": s, "to_string": r.inline})),
             Err(e) => ctx.oracle_fail("substitution failed", serde_json::json!({"class": class, "backend": b.name(), "recipe": recipe, "build": r.sql, "error": e})),
         }
+        // ---- .. and that literal denotes the bound value under the engine's own lexical rules (text values; the reference lexers of C03)
+        for (v, lit) in r.values.iter().zip(lits.iter()) {
+            let want = match v { sea_query::Value::String(Some(s)) => s.to_string(), sea_query::Value::Char(Some(c)) => c.to_string(), _ => continue };
+            if want.contains('\0') { continue; }
+            ctx.count("c02.literals_decoded");
+            match reflex::lex(b, lit) {
+                Ok(toks) if toks.len() == 1 && toks[0] == Tok::Str(want.clone()) => {}
+                other => ctx.oracle_fail("the literal written for a bound text value does not denote that value under the engine's lexical rules", serde_json::json!({"backend": b.name(), "value": want, "literal": lit, "engine_reads": format!("{other:?}").chars().take(200).collect::<String>()})),
+            }
+        }
     }
     // the builder's convenience methods (and_where_option, the ON CONFLICT where-adders, setters called twice, ..) must build
     // what their general forms build: the generator above only calls the general forms
